@@ -58,8 +58,9 @@ func (c17) Info() core.Info {
 			"a packet with payload_unit_start_indicator but without payload is a unit start (it discards what came before and later continuation packets are accepted) and is itself reported as an error",
 			"lists and byte slices returned earlier must keep their contents whatever is done to the accumulator afterwards (independent copies)",
 			"only slice-level independence of Packets() is demanded",
+			"a predicate result (true, err) with err != nil is an error and not a completion (Go convention: other results mean nothing next to a non-nil error)",
 		},
-		RequiredProbes: []string{"payload_all_ff", "pred_err_is_done_sentinel", "very_long_unit", "reserved_afc_packet", "pusi_without_payload", "held_results_checked", "second_pusi_restart", "refused_before_start", "write_after_done", "pred_err", "nopayload_packet", "reset_mid", "buffer_reused", "scribbled", "done_at_first_packet", "empty_payload_packet", "af_overrun_packet"},
+		RequiredProbes: []string{"payload_all_ff", "pred_err_is_done_sentinel", "very_long_unit", "reserved_afc_packet", "pusi_without_payload", "held_results_checked", "second_pusi_restart", "refused_before_start", "write_after_done", "pred_err", "nopayload_packet", "reset_mid", "buffer_reused", "scribbled", "done_at_first_packet", "empty_payload_packet", "af_overrun_packet", "pred_err_with_done_true", "reset_after_unit_of_268_packets_or_more"},
 	}
 }
 
@@ -183,7 +184,7 @@ func (c17) Gen(r *core.Rand, tier string) interface{} {
 	case 1:
 		s.Pred = PredSpec{Kind: "always"}
 	case 2:
-		s.Pred = PredSpec{Kind: r.PickS("errwin", "errwin", "errdone"), N: r.Range(0, 300), T: r.Range(1, 900)}
+		s.Pred = PredSpec{Kind: r.PickS("errwin", "errwin", "errdone", "errtrue"), N: r.Range(0, 300), T: r.Range(1, 900)}
 		s.Pred.M = s.Pred.N + r.Range(1, 400)
 	case 3:
 		s.Pred = PredSpec{Kind: "flap", N: r.Pick(2, 3, 184, 368), M: r.Range(0, 400)}
@@ -201,6 +202,17 @@ func (c17) Gen(r *core.Rand, tier string) interface{} {
 		for i := 1; i < 6200; i++ {
 			s.Ops = append(s.Ops, C17Op{Op: "write", Class: "pay", Ser: i})
 		}
+		c17Tail(r, s)
+		return s
+	}
+	if r.Chance(1, 3000) {
+		// a unit of a few hundred packets (tens of KiB), then what a caller does next
+		s.Pred = PredSpec{Kind: "never"}
+		s.Ops = append(s.Ops, C17Op{Op: "write", Class: "pay", PUSI: true, Ser: 0})
+		for i, m := 1, r.Pick(180, 270, 290, 360, 700); i < m; i++ {
+			s.Ops = append(s.Ops, C17Op{Op: "write", Class: "pay", Ser: i})
+		}
+		c17Tail(r, s)
 		return s
 	}
 	// most histories start a unit early so that they make progress
@@ -212,6 +224,25 @@ func (c17) Gen(r *core.Rand, tier string) interface{} {
 		s.Ops = append(s.Ops, op)
 	}
 	return s
+}
+
+// c17Tail: after a large unit - reset, look at the accumulator straight away, offer packets it
+// must refuse, reset again, start the next unit.
+func c17Tail(r *core.Rand, s *C17Script) {
+	if r.Chance(1, 4) {
+		return
+	}
+	s.Ops = append(s.Ops, C17Op{Op: "reset"})
+	for k := r.Pick(0, 0, 1, 2); k > 0; k-- {
+		if r.Bool() {
+			s.Ops = append(s.Ops, C17Op{Op: "write", Class: "pay", Ser: 9000 + k})
+		} else {
+			s.Ops = append(s.Ops, C17Op{Op: "reset"})
+		}
+	}
+	if r.Bool() {
+		s.Ops = append(s.Ops, C17Op{Op: "write", Class: "pay", PUSI: true, Ser: 9100}, C17Op{Op: "write", Class: "pay", Ser: 9101})
+	}
 }
 
 // sweep alphabet (threshold 300: done in the second full packet)
@@ -273,6 +304,13 @@ func (p *c17Pred) eval(b []byte) (bool, error) {
 	case "errwin":
 		if len(b) >= p.spec.N && len(b) < p.spec.M {
 			return false, &parties.InjectedErr{ID: 3000 + len(b)}
+		}
+		return len(b) >= p.spec.T, nil
+	case "errtrue":
+		// an error together with done=true: by Go convention the other result means nothing
+		// when the error is not nil - the error is propagated and nothing is complete
+		if len(b) >= p.spec.N && len(b) < p.spec.M {
+			return true, &parties.InjectedErr{ID: 3000 + len(b)}
 		}
 		return len(b) >= p.spec.T, nil
 	case "errdone":
@@ -455,6 +493,9 @@ func (c17) Exec(script interface{}, c *core.Ctx) {
 			if state != idle || len(mbuf) > 0 {
 				c.Probe("reset_mid")
 			}
+			if len(mpkAll) >= 268 {
+				c.Probe("reset_after_unit_of_268_packets_or_more")
+			}
 			if !c.Call("Accumulator.Reset", func() { acc.Reset() }) {
 				return
 			}
@@ -542,6 +583,9 @@ func (c17) Exec(script interface{}, c *core.Ctx) {
 					}
 					wantDone, wantPredErr = pred.eval(mbuf)
 					if wantPredErr != nil {
+						if wantDone {
+							c.Probe("pred_err_with_done_true")
+						}
 						wantDone = false
 						c.Probe("pred_err")
 						if wantPredErr == gots.ErrAccumulatorDone {
@@ -622,7 +666,7 @@ func (c17) Exec(script interface{}, c *core.Ctx) {
 			}
 			c.Log("write class=%s pusi=%t -> %s state=%d len=%d", op.Class, op.PUSI, e.kind, state, len(mbuf))
 		}
-		if long && i%997 != 0 && i != len(s.Ops)-1 {
+		if long && i%997 != 0 && i < len(s.Ops)-8 {
 			continue // a full comparison after every one of thousands of writes would be quadratic
 		}
 		if !checkHeld() {
